@@ -15,7 +15,8 @@ def wstateToJson (st : WState) : Json :=
     ("names", Json.arr (st.nodes.map (fun r => charsToJson (r.map (·.1)).flatten)).toArray),
     ("recipes", Json.arr (st.nodes.map recipeToJson).toArray),
     ("edges", Json.arr (st.edges.map (fun (p, c, l) => Json.arr #[Json.num p, Json.num c, charsToJson l])).toArray),
-    ("full", Json.bool st.full), ("components", Json.num (components st))]
+    ("full", Json.bool st.full), ("components", Json.num (components st)),
+    ("leaves", Json.arr ((Plan.outLeaves st.edges (List.range st.nodes.length)).map (fun (i : Nat) => Json.num i)).toArray)]
 
 def frontToJson (r : Model.FrontResult) : Json :=
   match r with
